@@ -80,12 +80,24 @@ def run(chk: Check) -> None:
             r1.violation(key, rp.loc(n.stmt), f"{name} can run before {prev_name}: {why}")
         prev, prev_name = n, name
     # the result is derived from the comparison
-    src = norm(rp.node)
-    if "changed = compare_symbol_table_snapshots(file_node.fullname, old_symbols_snapshot, new_symbols_snapshot)" in src and "new_triggered = {make_trigger(name) for name in changed}" in src and norm(rets[-1].stmt.value) == "new_triggered":
+    from ..pattern import find_all
+    trig = find_all(rp.node, [
+        "$old = snapshot_symbol_table(file_node.fullname, file_node.names)",
+        "$new = snapshot_symbol_table(file_node.fullname, file_node.names)",
+        "$changed = compare_symbol_table_snapshots(file_node.fullname, $old, $new)",
+        "$trig = {make_trigger($n) for $n in $changed}",
+    ])
+    trig = [b for b in trig if b["old"] != b["new"] and norm(rets[-1].stmt.value) == b["trig"]]
+    # `old` is the snapshot taken before re-analysis, `new` the one taken after
+    def _line_of(name):
+        return min(a.lineno for a in ast.walk(rp.node) if isinstance(a, ast.Assign) and norm(a.targets[0]) == name)
+    sa_lines = [c.lineno for c in ast.walk(rp.node) if isinstance(c, ast.Call) and call_name(c) == "semantic_analysis_for_targets"]
+    trig = [b for b in trig if sa_lines and _line_of(b["old"]) < min(sa_lines) < _line_of(b["new"])]
+    if trig:
         r1.ok("reprocess_nodes returns the triggers of (old snapshot vs new snapshot)", rp.loc(rets[-1].stmt))
     else:
         r1.violation("reprocess_nodes returns the triggers of (old snapshot vs new snapshot)", rp.loc(rets[-1].stmt), "the fired triggers are no longer the comparison of the snapshot taken before with the one taken after")
-    if "changed |= wildcard_triggers_for_changes(module_id, changed)" in src:
+    if trig and find_all(rp.node, [f"{trig[0]['changed']} |= wildcard_triggers_for_changes(module_id, {trig[0]['changed']})"]):
         r1.ok("reprocess_nodes adds wildcard triggers for changed names", rp.loc())
     else:
         r1.violation("reprocess_nodes adds wildcard triggers for changed names", rp.loc(), "`from m import *` dependants are no longer triggered")
@@ -165,10 +177,11 @@ def run_follow_imports(chk: Check, ix) -> None:
     marked = {a for a in fparams if any(isinstance(c, ast.Call) and isinstance(c.func, ast.Attribute) and c.func.attr in ("add", "update") and norm(c.func.value) == a for c in ast.walk(finder.node))}
     if not marked:
         raise AnalysisError("find_reachable_changed_modules no longer marks a `seen` parameter")
-    loops = [n for n in ast.walk(f.node) if isinstance(n, ast.While) and norm(n.test) == "worklist"]
+    loops = [n for n in ast.walk(f.node) if isinstance(n, ast.While) and isinstance(n.test, ast.Name) and any(isinstance(c, ast.Call) and call_name(c) == "find_reachable_changed_modules" for c in ast.walk(n))]
     if len(loops) != 1:
         raise AnalysisError("follow-imports worklist loop not found")
     loop = loops[0]
+    wl = loop.test.id  # the work-queue variable
     n_calls = 0
     for scope, label in ((f.node, "initial"), (loop, "loop")):
         body = scope.body
@@ -194,9 +207,9 @@ def run_follow_imports(chk: Check, ix) -> None:
             queued = None
             for x in later:
                 for c in ast.walk(x):
-                    if isinstance(c, ast.Call) and isinstance(c.func, ast.Attribute) and c.func.attr in ("extend", "append") and norm(c.func.value) == "worklist" and c.args:
+                    if isinstance(c, ast.Call) and isinstance(c.func, ast.Attribute) and c.func.attr in ("extend", "append") and norm(c.func.value) == wl and c.args:
                         queued = c.args[0]
-                    if isinstance(c, ast.Assign) and norm(c.targets[0]) == "worklist":
+                    if isinstance(c, ast.Assign) and norm(c.targets[0]) == wl:
                         queued = c.value
             key = f"{label}: every changed module found is queued for following its imports"
             if queued is None:
